@@ -1,10 +1,19 @@
 package main
 
 import (
+	"bytes"
 	"go/ast"
 	"go/constant"
+	"go/printer"
 	"go/types"
+	"strings"
 )
+
+func exprString(e ast.Expr) string {
+	var b bytes.Buffer
+	printer.Fprint(&b, fsetAll, e)
+	return b.String()
+}
 
 func findFunc(p *pkgInfo, name string) *ast.FuncDecl {
 	for _, f := range p.files {
@@ -68,4 +77,43 @@ func funcLocalConst(rel, fn, name, coqName string) {
 		return
 	}
 	out.Consts[coqName] = val.ExactString()
+}
+
+// callArg records argument idx of the first call to callee inside function fn:
+// as an integer constant when the type checker evaluates it, else as source text.
+func callArg(rel, fn, callee string, idx int, coqName string) {
+	p := load(rel)
+	fd := findFunc(p, fn)
+	if fd == nil {
+		out.Missing = append(out.Missing, rel+"."+fn)
+		return
+	}
+	done := false
+	ast.Inspect(fd.Body, func(n ast.Node) bool {
+		ce, ok := n.(*ast.CallExpr)
+		if !ok || done {
+			return true
+		}
+		name := ""
+		switch f := ce.Fun.(type) {
+		case *ast.Ident:
+			name = f.Name
+		case *ast.SelectorExpr:
+			name = f.Sel.Name
+		}
+		if name != callee || idx >= len(ce.Args) {
+			return true
+		}
+		done = true
+		arg := ce.Args[idx]
+		if tv, ok := p.info.Types[arg]; ok && tv.Value != nil && tv.Value.Kind() == constant.Int {
+			out.Consts[coqName] = tv.Value.ExactString()
+		} else {
+			out.Strings[coqName] = strings.ReplaceAll(exprString(arg), " ", "")
+		}
+		return false
+	})
+	if !done {
+		out.Missing = append(out.Missing, rel+"."+fn+"->"+callee)
+	}
 }
